@@ -14,6 +14,14 @@ def crash_conv(kind):
         rounds = [1, 2, 3, 4, 5]
         r = rounds[h % len(rounds)]
         n = (h // len(rounds)) % 9
+        if kind == "revfault":
+            # an API error on exactly the k-th ControllerRevision create / update / delete of the r-th sync
+            r = [1, 2, 3][h % 3]
+            verb = ["create", "update", "delete"][(h // 3) % 3]
+            code = [500, 409, 404, 422, 0][(h // 9) % 5]
+            k = (h // 45) % 2
+            return fam_roll.convert(raw, sid + "-revfault-r%d-%s-k%d-c%d" % (r, verb, k, code),
+                                    fault=(r, k, code, {"verb": verb, "res": "controllerrevisions"}))
         if kind == "crash":
             return fam_roll.convert(raw, sid + "-crash-r%d-n%d" % (r, n), crash=(r, n))
         code = [500, 409, 404, 422, 0][(h // 45) % 5]
@@ -23,8 +31,10 @@ def crash_conv(kind):
 
 PLAN = dict(ROLL_PLAN)
 PLAN["beh"] = {
-    "quick": [("MC_Rolling", "Beh_Rolling_q.cfg", crash_conv("crash"), 300), ("MC_Rolling", "Beh_Rolling_q.cfg", crash_conv("fault"), 200)],
+    "quick": [("MC_Rolling", "Beh_Rolling_q.cfg", crash_conv("crash"), 300), ("MC_Rolling", "Beh_Rolling_q.cfg", crash_conv("fault"), 150),
+              ("MC_Rolling", "Beh_Rolling_q.cfg", crash_conv("revfault"), 150)],
     "thorough": [("MC_Rolling", "Beh_Rolling_q.cfg", crash_conv("crash"), 0), ("MC_Rolling", "Beh_Rolling_q.cfg", crash_conv("fault"), 0),
+                 ("MC_Rolling", "Beh_Rolling_q.cfg", crash_conv("revfault"), 0),
                  ("MC_Rolling", "Beh_Rolling_t.cfg", crash_conv("crash"), 4000)],
 }
 PLAN["drift"] = None
